@@ -96,6 +96,12 @@ func init() {
       }
     }
   }
+  augment "/top/kind" {
+    leaf tok { type string; }
+    container crt {
+      leaf cl { type string; }
+    }
+  }
   list rows {
     key "a b";
     leaf a { type string; }
